@@ -16,7 +16,8 @@ RULE = ("ASTs from the full-grammar generator (depth <= 3/4) x alias maps drawn 
         "terms; empty/non-matching map is the identity; the input tree is not modified; a fresh-name "
         "bijection followed by its inverse restores the input; caller-supplied lexer/parser give the same "
         "rewriter. Non-trivial: the map matches >= 1 field reference and the tree has a non-matching field "
-        "or a colliding non-field name; distinct by (tree, map).")
+        "or a colliding non-field name; distinct by (tree, map)."
+        " Plus a coverage-guided campaign (atheris/libFuzzer mutating the byte buffer that Hypothesis decodes through the same strategy, the same oracle inside the target; quick 3000-4000 executions, thorough 4 x 100000-150000).")
 ASSUMPTIONS = ["alias keys that are paths rooted at a lambda variable are outside the generated domain "
                "(the statement does not say whether such a path is a field reference)"]
 
@@ -294,10 +295,22 @@ FIXED = [
 ]
 
 
+def fuzz_target():
+    """(strategy, fn) for the coverage-guided campaign (vp.fuzz_prop)."""
+    def fn(case):
+        case = dict(case, reuse=0)
+        r = run_all(case)
+        return (r[0], r[1], case) if r else None
+    return cases(3), fn
+
+
 def plan(tier, seed, scale):
     K = 16
     total = int((10000 if tier == "quick" else 200000) * scale)
     tasks = [{"name": "fixed", "kind": "fixed"}]
+    for i in range(1 if tier == "quick" else 4):
+        tasks.append({"name": "covfuzz-%d" % i, "kind": "covfuzz", "shard": i,
+                      "runs": int((3000 if tier == "quick" else 100000) * scale)})
     for i in range(K):
         tasks.append({"name": "rand-%d" % i, "kind": "rand", "n": max(total // K, 10), "shard": i,
                       "depth": 3 if tier == "quick" else 4})
@@ -321,6 +334,10 @@ def run_task(task, seed, acc):
         if r:
             acc.fail(r[0], case, r[1])
 
+    if task["kind"] == "covfuzz":
+        from ..runner import run_covfuzz
+        run_covfuzz(__name__, task, seed, acc)
+        return
     if task["kind"] == "fixed":
         for t, m in FIXED:
             one({"term": to_json(t), "map": [[to_json(k), to_json(v)] for k, v in m]})
